@@ -16,6 +16,9 @@ func init() {
 		Rules: []Rule{
 			{"WALK-PARTITION", func(c *eng.Ctx) { ruleWalkPartitionMerge(c) }},
 			{"WALK-STOP", ruleWalkStop},
+			{"TARGET-HEIGHT", ruleTargetHeight},
+			{"WALKBACK-KEEPS-LOWER", ruleWalkBackKeepsLower},
+			{"QUEUE-ONCE", ruleQueueOnce},
 			{"NONCE", ruleNonce},
 			{"NO-RESURRECT", ruleNoResurrect},
 			{"DELETED-REDIRECT", ruleDeletedRedirect},
